@@ -374,6 +374,7 @@ class Peer:
                                                 connection the built-in script answers the set-up requests (*IDN?, describe,
                                                 activate) as on the first one, the rules go on applying, nothing else happens
       'refuse_first': n                         with 'accept': the first n further attempts are refused all the same
+      'refuse_attempts': [k, ...]               with 'accept': the k-th further attempts (1-based) are refused as well
     }
     All lines are `str` without the end-of-line.  Every emitted line is logged with `after` = number of lines the client
     had transmitted when the peer emitted it and `re` = index of the transmission that triggered it (None: spontaneous).
@@ -409,7 +410,8 @@ class Peer:
         if self.conns:
             self.attempts += 1
         if self.conns and (self.script.get('reconnect', 'refuse') == 'refuse'
-                           or self.attempts <= self.script.get('refuse_first', 0)):
+                           or self.attempts <= self.script.get('refuse_first', 0)
+                           or self.attempts in self.script.get('refuse_attempts', ())):
             self.instr.ev('c.new', False)
             raise CommunicationFailedError('can not connect (scripted)')
         c = FakeConn(self)
